@@ -112,6 +112,8 @@ def main():
         base = [(rp['input'], rp['spec'], rp['opts'], rp.get('meta', {}))]
     else:
         S.model_check(rep, MODELS[a.tier])
+        # the property is not vacuous: a faulty variant is refuted
+        S.model_refutes(rep, 'HierBad', 'MC_HierBad_later.cfg', ['FirstSuccessAdopted'])
         base = corpus.configs(r, NCONF[a.tier], jobs=(1, ),
                               outmodes=((), ('--pretty-print', )))
         base += theory_configs(r, a.tier)
